@@ -29,6 +29,7 @@ class Obligation:
         self.seconds = 0.0
         self.model = None
         self.reason = ""
+        self.facts = []               # relevant array-level well-formedness facts
 
     @property
     def name(self):
@@ -101,6 +102,11 @@ class Engine:
         ax, cs = self.ct.axioms()
         ax = ax + smt.base_axioms(self.ct)
         ax.append(smt.distinct_consts())
+        c = z3.Const("c!dj", V)
+        for a, b in self.reg.disjoint_classes:
+            if a in self.ct.used and b in self.ct.used:
+                ax.append(z3.ForAll([c], z3.Not(z3.And(smt.subclass(c, self.ct.cls(a)), smt.subclass(c, self.ct.cls(b)))),
+                                    patterns=[smt.subclass(c, self.ct.cls(a))]))
         for name, o in self._opts.items():
             if name == "MAX_TASK_STACK_SIZE":
                 ax.append(o >= 1)
@@ -143,11 +149,29 @@ def run_cvc5(smt2, timeout_s):
             pass
 
 
+def consts_of(exprs):
+    seen, out, todo = set(), set(), list(exprs)
+    while todo:
+        e = todo.pop()
+        i = e.get_id()
+        if i in seen:
+            continue
+        seen.add(i)
+        if z3.is_quantifier(e):
+            todo.append(e.body())
+        elif z3.is_app(e):
+            if e.num_args() == 0 and e.decl().kind() == z3.Z3_OP_UNINTERPRETED:
+                out.add(e.decl().name())
+            else:
+                todo.extend(e.children())
+    return out
+
+
 def discharge(eng, ob, timeout_s=10, use_cvc5=True, both=False):
     """Decide one obligation.  unsat of (axioms ∧ pc ∧ ¬goal) -> discharged;
     sat -> failed with model; unknown -> undecided."""
     t0 = time.time()
-    ax = eng.axioms()
+    ax = eng.axioms() + list(ob.facts)
     if ob.expect_sat:
         # cover: axioms ∧ pc ∧ goal satisfiable
         s = _mk_solver(int(min(timeout_s, 1.5) * 1000))
@@ -168,12 +192,27 @@ def discharge(eng, ob, timeout_s=10, use_cvc5=True, both=False):
             ob.status = "discharged"
             ob.reason = "hypotheses not refutable within budget (no model either)"
         return ob
-    s = _mk_solver(int(timeout_s * 1000))
-    s.add(*ax)
-    s.add(*ob.pc)
-    s.add(z3.Not(ob.goal))
-    r = s.check()
-    ob.backend = "z3"
+    hyps = list(ax) + list(ob.pc) + [z3.Not(ob.goal)]
+
+    def attempt(ms, mbqi):
+        s = _mk_solver(ms)
+        if mbqi:
+            s.set("smt.mbqi", True)
+            s.set("smt.ematching", False)
+        s.add(*hyps)
+        return s, s.check()
+
+    # stage 1: E-matching, short budget (valid obligations close in milliseconds)
+    # stage 2: model-based instantiation (finds counter-models; also proves some goals)
+    # stage 3: E-matching, full budget
+    stages = [(int(min(timeout_s, 2) * 1000), False, "z3"), (int(timeout_s * 1000), True, "z3-mbqi"),
+              (int(timeout_s * 1000), False, "z3")]
+    r, s = z3.unknown, None
+    for ms, mbqi, name in stages:
+        s, r = attempt(ms, mbqi)
+        ob.backend = name
+        if r != z3.unknown:
+            break
     if r == z3.unsat:
         ob.status = "discharged"
         if both and use_cvc5:
@@ -182,7 +221,7 @@ def discharge(eng, ob, timeout_s=10, use_cvc5=True, both=False):
                 ob.status = "unknown"
                 ob.reason = "back-end disagreement: z3 unsat, cvc5 sat"
             elif r2 == "unsat":
-                ob.backend = "z3+cvc5"
+                ob.backend += "+cvc5"
     elif r == z3.sat:
         ob.status = "failed"
         ob.model = s.model()
